@@ -14,7 +14,7 @@ not be an abort, and pc must advance by the instruction length.
 import os
 import vlib
 
-FINISH = dict(rule='every first word 0..65535 x k random machine states (k=1 quick, 4 thorough), second word '
+FINISH = dict(rule='every first word 0..65535 x k random machine states (k=2 quick, 8 thorough), second word '
                    'boundary-clustered; one record = one real Run(1) compared in full with the TLA+ CoreCycle')
 
 
@@ -33,13 +33,13 @@ def shards(ck, mode, k, tag, n=16, seedoff=0):
 def run(ck):
     ck.build('isa_rec')
     if ck.thorough:
-        for rnd in range(4):
+        for rnd in range(8):
             files = shards(ck, 'all', 1, 'isa%d' % rnd, seedoff=1000 * rnd)
             ck.validate_traces('IsaTrace', 'Trace_Isa.cfg', files, timeout=2400)
             for f in files:
                 os.remove(f)
     else:
-        files = shards(ck, 'all', 1, 'isa')
+        files = shards(ck, 'all', 2, 'isa')
         ck.validate_traces('IsaTrace', 'Trace_Isa.cfg', files, timeout=1800)
         ck.sample_lines(files[10], 1, skip=100)
     ck.assumptions += ['the TLA+ instruction semantics is a hand transcription of the PINNED interpreter.h (C01 names the '
